@@ -11,6 +11,13 @@ sealed with, which corruption was applied) and then realised twice:
 The BLE address the advertisement is sent from is a separate input (a pairing's
 AccessoryAddress or an unknown one); the model has no such input: routing is by the id in the
 frame only (bcast_routing), so the same term history must give the same result from any address.
+Besides advertisements a history may contain the OTHER writers of the state number (it is
+tracked in two places, description.state_num and the persisted _accessories_state.state_num):
+populate (BlePairing._populate_char_values with the GATT round trips faked: the accessory reports its
+GSN over a connection -> description only), update (_async_process_disconnected_events with the
+poll faked -> _update_state_num: both copies), plain (regular type-0x06 advertisement), restart
+(new BleController + pairings over the same characteristic cache).  Model: ops OPopulate / OUpdate /
+OPlain / ORestart.
 Observable after every advertisement: listener calls per pairing (aid, iid, value), the
 stored state number (description.state_num) of every pairing, escaped exception class.
 The oracle is direct: anything accepted that is not genuine+fresh for that pairing, or a
@@ -71,6 +78,7 @@ def pdb(p):
 
 # ------------------------------------------------------------------ events
 PAIRING_NAMES = ("A", "B", "C", "D", "E")
+OPS = ("plain", "populate", "update", "restart")     # writers of the state number other than an accepted broadcast
 UNKNOWN_ADDR = "AA:BB:CC:00:00:01"
 
 
@@ -99,7 +107,7 @@ def ev_raw(to, payload, label, **mods):
 
 def realise(ev):
     """-> (apple manufacturer data bytes or None, sealed-intact?)"""
-    if ev["k"] == "noapple":
+    if ev["k"] in ("noapple", "populate", "update", "restart"):
         return None, False
     if ev["k"] == "plain":
         # type 0x06 | stl | sf | id(6) | acid(2) | gsn(2) | cn | cv | setup hash(4)
@@ -141,6 +149,12 @@ def symbolic(world, ev, plain_sns):
     """the model's view of the advertisement: 'A:<hdr>:<body>' (or R:.. for plain)"""
     if ev["k"] == "plain":
         return "R:%s:%d" % (ev["to"], ev["sn"] & 0xFFFF)
+    if ev["k"] == "populate":
+        return "O:%s:%d" % (ev["to"], ev["sn"])
+    if ev["k"] == "update":
+        return "U:%s:%d" % (ev["to"], ev["sn"])
+    if ev["k"] == "restart":
+        return "X"
     data, intact = realise(ev)
     if data is None:
         return "A:-:E"
@@ -168,11 +182,12 @@ def model_line(world, events):
     for p in world:
         chars = ",".join("%d.%s" % (i, MODEL_FMT.get(f, "other")) for i, f in ([(2, "string")] + DBS[p["db"]])) if p["db"] else "-"
         has_desc = p["cache"] and p["sn"]
-        toks.append("P:%s:%s:%s:%s" % (p["id"], KEYNUM[p["key"]] if p["key"] else "-",
-                                       p["sn"] if has_desc else "-", chars))
+        toks.append("P:%s:%s:%s:%s:%s" % (p["id"], KEYNUM[p["key"]] if p["key"] else "-",
+                                          p["sn"] if has_desc else "-",
+                                          p["sn"] if (p["cache"] and p["sn"] is not None) else "-", chars))
     plain_sns = {}
     for e in events:
-        if e["k"] == "plain":
+        if e["k"] in OPS and e["k"] != "restart":
             plain_sns.setdefault(e["to"], []).append(e["sn"])
     toks += [symbolic(world, e, plain_sns) for e in events]
     return " ".join(toks)
@@ -184,7 +199,7 @@ def canon_model(ans, npair):
         return [], []
     out = []
     for tok in ans.split(" "):
-        o, calls, sns = tok.split("/")
+        o, calls, sns, _psns = tok.split("/")
         exc = o if o.startswith("crash-") else "ok"
         cl = []
         if calls != "-":
@@ -217,20 +232,15 @@ def _mk_adv(mfr):
                              tx_power=-127, rssi=-60, platform_data=())
 
 
-async def _impl_async(world, events):
-    import asyncio
-    import logging
-    logging.disable(logging.CRITICAL)
-    from aiohomekit.characteristic_cache import CharacteristicCacheMemory
-    from aiohomekit.controller.ble.controller import BleController
-    ctl = BleController(CharacteristicCacheMemory())
-    pairings, calls, fallbacks = [], [], [0]
+def _idstr(p):
+    return ":".join(p["id"][i:i + 2] for i in range(0, 12, 2))
+
+
+def _load_pairings(ctl, world, calls, fallbacks):
+    """(re)create every BlePairing from the controller's characteristic cache, as a start of the process does"""
+    pairings = []
     for p in world:
-        idstr = ":".join(p["id"][i:i + 2] for i in range(0, 12, 2))
-        if p["cache"]:
-            ctl._char_cache.async_create_or_update_map(idstr, 1, accessories_json(p["db"]),
-                                                       KEYS[p["key"]].hex() if p["key"] else None, p["sn"])
-        pr = ctl.load_pairing("alias-" + p["name"], {"AccessoryPairingID": idstr, "AccessoryAddress": idstr.upper(),
+        pr = ctl.load_pairing("alias-" + p["name"], {"AccessoryPairingID": _idstr(p), "AccessoryAddress": _idstr(p).upper(),
                                                       "Connection": "BLE"})
         pr.dispatcher_connect(lambda ev, pid=p["id"]: calls.append((pid, ev)))
         orig = pr._process_disconnected_events
@@ -240,18 +250,68 @@ async def _impl_async(world, events):
             return orig()
         pr._process_disconnected_events = spy
         pairings.append(pr)
+    return pairings
+
+
+async def _impl_op(ev, world, pairings):
+    """the other writers of the state number, driven through the real methods with only the GATT round trips faked"""
+    from unittest.mock import AsyncMock
+    from aiohomekit.controller.ble.structs import ProtocolParams
+    idx = next(i for i, p in enumerate(world) if p["id"] == ev["to"])
+    pr = pairings[idx]
+    params = ProtocolParams(state_number=ev["sn"], config_number=1, advertising_id=bytes.fromhex(ev["to"]), broadcast_key=None)
+    if ev["k"] == "populate":
+        # a connection (re)reads the characteristic values; the accessory reports its GSN
+        pr._get_all_protocol_params = AsyncMock(return_value=params)
+        pr._get_characteristics_while_connected = AsyncMock(return_value={})
+        try:
+            await pr._populate_char_values(False)
+        finally:
+            del pr._get_all_protocol_params, pr._get_characteristics_while_connected
+    else:
+        # disconnected-events poll: _async_process_disconnected_events -> _update_state_num
+        pr._tried_to_connect_once = True
+        pr._process_disconnected_events_with_retry = AsyncMock(return_value=params)
+        try:
+            await pr._async_process_disconnected_events()
+        finally:
+            del pr._process_disconnected_events_with_retry
+            pr._tried_to_connect_once = False
+
+
+async def _impl_async(world, events):
+    import asyncio
+    import logging
+    logging.disable(logging.CRITICAL)
+    from aiohomekit.characteristic_cache import CharacteristicCacheMemory
+    from aiohomekit.controller.ble.controller import BleController
+    cache = CharacteristicCacheMemory()
+    ctl = BleController(cache)
+    calls, fallbacks = [], [0]
+    for p in world:
+        if p["cache"]:
+            cache.async_create_or_update_map(_idstr(p), 1, accessories_json(p["db"]),
+                                             KEYS[p["key"]].hex() if p["key"] else None, p["sn"])
+    pairings = _load_pairings(ctl, world, calls, fallbacks)
     steps = []
     for ev in events:
-        data, _ = realise(ev)
-        mfr = {} if data is None else {76: data}
-        if ev["k"] == "noapple" and ev.get("other"):
-            mfr = {0x0006: b"\x11\x36" + bytes(22)}
-        dev = _mk_device(addr_of(ev.get("addr") or "U"))
         del calls[:]
         fb0 = fallbacks[0]
         exc = "ok"
         try:
-            ctl._device_detected(dev, _mk_adv(mfr))
+            if ev["k"] == "restart":
+                for pr in pairings:
+                    pr._shutdown = True
+                ctl = BleController(cache)
+                pairings = _load_pairings(ctl, world, calls, fallbacks)
+            elif ev["k"] in ("populate", "update"):
+                await _impl_op(ev, world, pairings)
+            else:
+                data, _ = realise(ev)
+                mfr = {} if data is None else {76: data}
+                if ev["k"] == "noapple" and ev.get("other"):
+                    mfr = {0x0006: b"\x11\x36" + bytes(22)}
+                ctl._device_detected(_mk_device(addr_of(ev.get("addr") or "U")), _mk_adv(mfr))
         except Exception as e:  # noqa
             exc = EXC.get(type(e).__name__, "exc:" + type(e).__name__)
         await asyncio.sleep(0)
@@ -332,7 +392,7 @@ def oracle_history(world, events, steps, check_monotone=True):
             out.append(("harness-exception", st, idx))
             break
         exc, calls, after = parse_step(st)
-        if ev["k"] == "plain":
+        if ev["k"] in OPS:
             sns = after
             continue
         data, intact = realise(ev)
@@ -516,6 +576,7 @@ def gen_random(tier, r):
         st = {"A": r.choice(starts + [r.randrange(1, 65536)]), "B": r.choice(starts + [r.randrange(1, 65536)])}
         world = mk_world(st["A"], st["B"])
         sent = {"A": [], "B": []}
+        pst = dict(st)             # the generator's idea of the persisted copy
         evs = []
         for _ in range(r.choice([3, 4, 6, 8, 10, 12])):
             who = "A" if r.random() < 0.75 else "B"
@@ -525,6 +586,19 @@ def gen_random(tier, r):
             val = r.choice(VALUES[:24]) if f != "string" else r.choice(VALUES[24:])
             val = (val + bytes(8))[:8] if r.random() < 0.8 else val
             x = r.random()
+            if r.random() < 0.09:
+                # another writer of the state number: mostly forward (the accessory's GSN moves on), sometimes not
+                if r.random() < 0.12:
+                    evs.append(RESTART)
+                    st = {k: (pst[k] or st[k]) for k in st}
+                    continue
+                kind = r.choice(["populate", "populate", "update", "plain"])
+                n2 = max(1, s + r.choice([0, 1, 2, 3, 6, 50, 99, 120, -1, -3])) & 0xFFFF or 1
+                evs.append(ev_op(kind, who, n2))
+                st[who] = n2
+                if kind != "populate":
+                    pst[who] = n2
+                continue
             if x < 0.35:
                 n = s + 1
                 e = genuine(who, n, iid, val, "genuine+1")
@@ -574,6 +648,46 @@ def gen_random(tier, r):
                     st[nm] = e["n"]
                     sent[nm].append(e)
         hs.append((world, evs, "random"))
+    return hs
+
+
+def ev_op(kind, to, sn, label=None):
+    return dict(k=kind, to=IDS[to], sn=sn, label=label or kind)
+
+
+RESTART = dict(k="restart", label="restart")
+
+
+def gen_ops(tier):
+    """histories in which the state number is also advanced by another route between notifications:
+    connection populate (description only), poll/_update_state_num (both copies), regular advertisement, restart.
+    A number learned by ANY route must not be undercut by a broadcast (bcast_no_replay_ops)."""
+    hs = []
+    starts = [20, 255, 65400] if tier == "quick" else [1, 20, 255, 256, 4095, 32767, 65400, 65430]
+    for s in starts:
+        def g(n, lab="genuine"):
+            return genuine("A", n, label=lab)
+        for kind in ("populate", "update", "plain"):
+            for jump in (1, 5, 50, 99, 150):
+                k = s + 1 + jump                          # the number learned by the other route
+                for old in sorted({s + 1, s + 2, s + 3, k - 1, k}):
+                    if s < old <= k:
+                        hs.append((mk_world(s, 300), [g(s + 1), ev_op(kind, "A", k), g(old, "older-than-learned"),
+                                                      g(k + 1), g(k + 1, "replay-current")], "ops:%s-after-accept" % kind))
+            hs.append((mk_world(s, 300), [ev_op(kind, "A", s + 5), g(s + 3, "older-than-learned"), g(s + 5, "older-than-learned"),
+                                          g(s + 6)], "ops:%s-first" % kind))
+            hs.append((mk_world(s, 300), [ev_op(kind, "A", s + 5), genuine("B", 301), g(s + 6)], "ops:%s-other-pairing" % kind))
+            hs.append((mk_world(s, 300), [g(s + 1), ev_op(kind, "A", s + 1), g(s + 1, "replay-current"), g(s + 2)], "ops:%s-same" % kind))
+            # two routes in a row, then a restart in between
+            hs.append((mk_world(s, 300), [ev_op(kind, "A", s + 4), ev_op("populate", "A", s + 9), g(s + 6, "older-than-learned"),
+                                          g(s + 10)], "ops:%s-then-populate" % kind))
+            hs.append((mk_world(s, 300), [ev_op(kind, "A", s + 5), RESTART, g(s + 3, "after-restart"), g(s + 6), RESTART,
+                                          g(s + 6, "after-restart")], "ops:%s-restart" % kind))
+        hs.append((mk_world(s, 300), [g(s + 1), g(s + 1, "replay-current"), RESTART, g(s + 1, "after-restart")], "ops:restart-replay"))
+        hs.append((mk_world(s, 300), [g(s + 1), ev_op("populate", "A", s + 6), RESTART, g(s + 3, "after-restart"),
+                                      g(s + 7)], "ops:populate-restart"))
+        hs.append((mk_world(s, 300), [RESTART, g(s + 1), ev_seal("D", "D", "D", 5, pt_for(5, 11), "no-description"),
+                                      ev_seal("E", "A", "E", 5, pt_for(5, 11), "wrong-frame-id")], "ops:restart-first"))
     return hs
 
 
@@ -641,7 +755,7 @@ def canon_model_val(a):
 
 # ------------------------------------------------------------------ extraction cross-check (vm_compute)
 _XC_OUT = {"notapple": 0, "othertype": 1, "nopairing": 2, "nokey": 3, "nodesc": 4, "nodecrypt": 5, "stale": 6,
-           "mismatch": 7, "accepted": 8, "crash-struct": 10, "crash-unicode": 11, "crash-nochar": 12, "plain": 99}
+           "mismatch": 7, "accepted": 8, "crash-struct": 10, "crash-unicode": 11, "crash-nochar": 12, "op": 99}
 _XC_FMT = {"bool": "FBool", "u8": "FU8", "u16": "FU16", "u32": "FU32", "u64": "FU64", "int": "FInt",
            "float": "FFloat", "string": "FString", "other": "FOther"}
 _XC_PRELUDE = """From Coq Require Import List NArith ZArith.
@@ -667,14 +781,15 @@ Definition show_call (x : call) : list Z :=
   let '(i, aid, iid, v) := x in zb i ++ [Z.of_N aid; Z.of_N iid] ++ show_v v.
 Definition show_sns (c : ctrl) : list Z :=
   Z.of_nat (length c) :: flat_map (fun p => match p_sn p with None => [0; 0] | Some n => [1; Z.of_N n] end) c.
+Definition show_psns (c : ctrl) : list Z :=
+  Z.of_nat (length c) :: flat_map (fun p => match p_psn p with None => [0; 0] | Some n => [1; Z.of_N n] end) c.
 Definition show_step (o : Z) (cl : list call) (c : ctrl) : list Z :=
-  o :: Z.of_nat (length cl) :: flat_map show_call cl ++ show_sns c.
-Definition xev := (frame + (bytes * N))%type.
-Fixpoint show_hist (c : ctrl) (h : list xev) : list Z :=
+  o :: Z.of_nat (length cl) :: flat_map show_call cl ++ show_sns c ++ show_psns c.
+Fixpoint show_hist (c : ctrl) (h : list op) : list Z :=
   match h with
   | [] => []
-  | inl f :: r => let '(c', o, cl) := detect c f in show_step (show_o o) cl c' ++ show_hist c' r
-  | inr (i, sn) :: r => let c' := plain_adv c i sn in show_step 99 [] c' ++ show_hist c' r
+  | x :: r => let '(c', o, cl) := apply c x in
+              show_step (match x with OAdv _ => show_o o | _ => 99 end) cl c' ++ show_hist c' r
   end.
 Definition show_val (r : crashkind + value) : list Z :=
   match r with inl k => [0; show_ck k] | inr v => 1 :: show_v v end.
@@ -698,9 +813,9 @@ def _xc_term(line):
     for t in toks[1:]:
         f = t.split(":")
         if f[0] == "P":
-            chars = "[]" if f[4] == "-" else "[" + "; ".join(
-                "(%d%%N, %s)" % (int(c.split(".")[0]), _XC_FMT[c.split(".")[1]]) for c in f[4].split(",")) + "]"
-            ps.append("mkP %s %s %s %s" % (_xc_bytes(f[1]), _xc_optn(f[2]), _xc_optn(f[3]), chars))
+            chars = "[]" if f[5] == "-" else "[" + "; ".join(
+                "(%d%%N, %s)" % (int(c.split(".")[0]), _XC_FMT[c.split(".")[1]]) for c in f[5].split(",")) + "]"
+            ps.append("mkP %s %s %s %s %s" % (_xc_bytes(f[1]), _xc_optn(f[2]), _xc_optn(f[3]), _xc_optn(f[4]), chars))
         elif f[0] == "A":
             b = f[2].split(".")
             if b[0] == "S":
@@ -711,9 +826,11 @@ def _xc_term(line):
                 body = "PShort [%s]" % ("" if b[1] == "-" else "; ".join("%d%%N" % int(x) for x in b[1].split(",")))
             else:
                 body = "PEmpty"
-            evs.append("inl (%s, %s)" % (_xc_bytes(f[1]), body))
+            evs.append("OAdv (%s, %s)" % (_xc_bytes(f[1]), body))
+        elif f[0] == "X":
+            evs.append("ORestart")
         else:
-            evs.append("inr (%s, %d%%N)" % (_xc_bytes(f[1]), int(f[2])))
+            evs.append("%s %s %d%%N" % ({"R": "OPlain", "O": "OPopulate", "U": "OUpdate"}[f[0]], _xc_bytes(f[1]), int(f[2])))
     return "show_hist [%s] [%s]" % ("; ".join(ps), "; ".join(evs))
 
 
@@ -735,17 +852,18 @@ def _xc_expect(line, ans):
         return [0, _XC_OUT[ans]] if ans.startswith("crash-") else [1] + _xc_val(ans)
     out = []
     for tok in ([] if ans == "." else ans.split(" ")):
-        o, calls, sns = tok.split("/")
+        o, calls, sns, psns = tok.split("/")
         cl = [] if calls == "-" else calls.split("+")
         out += [_XC_OUT[o], len(cl)]
         for c in cl:
             pid, aid, iid, v = c.split(".", 3)
             idb = [] if pid == "-" else list(bytes.fromhex(pid))
             out += [len(idb)] + idb + [int(aid), int(iid)] + _xc_val(v)
-        sl = sns.split(",") if sns else []
-        out.append(len(sl))
-        for x in sl:
-            out += [0, 0] if x == "-" else [1, int(x)]
+        for grp in (sns, psns):
+            sl = grp.split(",") if grp else []
+            out.append(len(sl))
+            for x in sl:
+                out += [0, 0] if x == "-" else [1, int(x)]
     return out
 
 
@@ -758,7 +876,7 @@ def xc_sample(hist_pairs, val_pairs, nhist=18, nval=10):
     for i, l, a in hp:
         feats = {"o:" + t.split("/")[0] for t in a.split(" ") if "/" in t}
         feats |= {"b:" + t.split(":")[2][0] for t in l.split(" ") if t.startswith("A:")}
-        feats |= {"e:R" for t in l.split(" ") if t.startswith("R:")}
+        feats |= {"e:" + t[0] for t in l.split(" ") if t[0] in "ROUX"}
         if feats - seen and len(picked) < nhist - 6:
             seen |= feats
             picked.append(i)
@@ -785,7 +903,7 @@ def xc_sample(hist_pairs, val_pairs, nhist=18, nval=10):
 
 def vm_crosscheck(ctx, sample):
     """Evaluate the sampled driver requests with vm_compute inside Coq (same model functions the driver calls:
-    detect / plain_adv folded over the history, from_bytes) and compare the complete answer content with what the
+    apply (= detect and the other writers of the state number) folded over the history, from_bytes) and compare the complete answer content with what the
     extracted OCaml driver printed.  Takes extraction + ocaml/drv.ml + ocaml/drv_c18.ml out of the
     single-point-of-trust position.  -> (requests, disagreements, first disagreeing request or None)"""
     import re
@@ -823,7 +941,7 @@ def run(ctx):
         hs = [(rp["world"], rp["events"], "replay")]
     else:
         hs = gen_core(tier) + gen_values(tier) + gen_flips(tier, rng(seed, "c18flip")) + gen_short(tier, rng(seed, "c18short")) \
-            + gen_random(tier, rng(seed, "c18rand"))
+            + gen_random(tier, rng(seed, "c18rand")) + gen_ops(tier)
     plain = [] if ctx.get("replay") else gen_plain()
     allh = hs + plain
     lines, model, impl = run_histories(drv, allh)
@@ -833,20 +951,19 @@ def run(ctx):
     fb_samples = []
     mismatches = 0
     for hi, ((world, evs, stream), line, mans, isteps) in enumerate(zip(allh, lines, model, impl)):
-        is_plain = hi >= len(hs)
         if mans.startswith("driver-exception") or mans == "bad-request":
             viols.append(violation("driver-failure", "model driver failed: " + mans[:200], False, line=line[:400]))
             continue
         msteps, mout = canon_model(mans, len(world))
         ist = [s for s, _ in isteps]
         for o, (_, fb) in zip(mout, isteps):
-            if o != "plain":
+            if o != "op":
                 outcomes_hit.add(o)
-            if (o in ("nokey", "nodecrypt")) != (fb > 0) and o != "plain":
+            if (o in ("nokey", "nodecrypt")) != (fb > 0) and o != "op":
                 fallback_disagree += 1
                 if len(fb_samples) < 3:
                     fb_samples.append(dict(stream=stream, model_outcome=o, impl_fallback_calls=fb, line=line[:600]))
-        orc = oracle_history(world, evs, ist, check_monotone=not is_plain)
+        orc = oracle_history(world, evs, ist)
         for key, what, idx in orc:
             if key in seen_keys:
                 continue
@@ -897,6 +1014,13 @@ def run(ctx):
             obs.append(dict(history=[e.get("label") for e in evs], stored_after=[s[2][0] for s in st],
                             listener_calls=[len(s[1]) for s in st],
                             replay_accepted_after_plain_adv_rollback=bool(st[3][1])))
+    obs_restart = []
+    for (world, evs, stream), isteps in zip(allh, impl):
+        if stream == "ops:restart-replay":
+            st = [parse_step(s) for s, _ in isteps]
+            obs_restart.append(dict(history=[e.get("label") for e in evs], stored_after=[s[2][0] for s in st],
+                                    listener_calls=[len(s[1]) for s in st],
+                                    replay_accepted_after_restart=bool(st[3][1])))
 
     # values.from_bytes on its own: implementation vs model vs reference
     vcases = gen_val_cases(tier, rng(seed, "c18val"))
@@ -946,9 +1070,11 @@ def run(ctx):
                                     % (2 if tier == "quick" else 4, len(variants(7, 8))))
     cov.extra["observations"] = dict(
         plain_advertisement_rollback=obs,
+        restart_replay=obs_restart,
         note="outside C18's quantifier: description.state_num is also overwritten by plain type-0x06 advertisements "
              "(unauthenticated); after such a roll-back a previously accepted broadcast is accepted again "
-             "(Coq: c18_plain_adv_rollback_observation).  The cached/persisted state_num is not advanced by broadcasts.")
+             "(Coq: c18_plain_adv_rollback_observation).  An accepted broadcast does not advance the persisted state_num, so "
+             "after a restart the same advertisement is accepted again (Coq: c18_restart_replay_observation).")
     cov.extra["domain"] = ("state numbers and nonce counters < 2^64 - 100 (PACK_NONCE); accessory database has aid 1; symbolic AEAD: "
                            "a corrupted or foreign string of >= 4 bytes opens nowhere (real: 100 * 2^-32 per advertisement)")
     cov.extra["trusted_base_extra"] = [
